@@ -21,7 +21,7 @@ class NirEval:
         self.ffs = [(i, c) for i, c in enumerate(nl.cells) if isinstance(c, _nir.FlipFlop)]
         self.ff_state = {i: c.init for i, c in self.ffs}
         for i, c in enumerate(nl.cells):
-            if not isinstance(c, (_nir.Top, _nir.Operator, _nir.IOBuffer, _nir.FlipFlop)):
+            if not isinstance(c, (_nir.Top, _nir.Operator, _nir.IOBuffer, _nir.FlipFlop, _nir.Match, _nir.AssignmentList)):
                 raise Unsupported(f"unexpected cell {c!r} in an I/O buffer netlist")
         self.env = {}
         self.ext = {}
@@ -62,6 +62,21 @@ class NirEval:
             v = self.pad_value((io.port, io.bit), memo)
         elif isinstance(cell, _nir.Operator):
             v = self.operator(cell, bit, memo)
+        elif isinstance(cell, _nir.Match):
+            # one-hot: the first pattern set matching `value`, nothing while `en` is 0 (patterns are MSB first)
+            v = 0
+            if self.net(cell.en, memo):
+                val = [self.net(x, memo) for x in cell.value]
+                for k, pats in enumerate(cell.patterns):
+                    if any(all(ch == "-" or int(ch) == val[len(pat) - 1 - j] for j, ch in enumerate(pat)) for pat in pats):
+                        v = 1 if k == bit else 0
+                        break
+        elif isinstance(cell, _nir.AssignmentList):
+            src = cell.default[bit]
+            for a in cell.assignments:
+                if a.start <= bit < a.start + len(a.value) and self.net(a.cond, memo):
+                    src = a.value[bit - a.start]
+            v = self.net(src, memo)
         else:
             raise Unsupported(repr(cell))
         memo[n] = v
@@ -109,6 +124,12 @@ class NirEval:
             v |= self.net(n, memo) << j
         return v
 
+    def get_state(self):
+        return tuple(sorted(self.ff_state.items()))
+
+    def set_state(self, st):
+        self.ff_state = dict(st)
+
     def tick(self, clk_sig):
         """active edge of every flip-flop clocked by clk_sig (posedge flops only)"""
         clk = [int(n) for n in self.nl.signals[clk_sig]]
@@ -145,6 +166,7 @@ class RModule:
         self.wires = {}       # name -> (width, port kind or None)
         self.cells = []       # (type, name, params, conns)
         self.connects = []    # (lhs bits, rhs bits)
+        self.procs = []       # (name, body); body = [("assign", lhs, rhs) | ("switch", sig, [(patterns, body)])]
 
 
 def _sigspec(toks, i, wires):
@@ -191,12 +213,62 @@ def _sigspec(toks, i, wires):
     return bits, i
 
 
+def _parse_proc_body(lines, i, wires):
+    """statements up to the `end` / `case` that closes the enclosing construct -> (body, next index)"""
+    body = []
+    while i < len(lines):
+        line = lines[i]
+        if line == "end" or line.startswith("case"):
+            return body, i
+        if line.startswith("assign "):
+            toks = _tokens(line[len("assign "):])
+            lhs, k = _sigspec(toks, 0, wires)
+            rhs, k = _sigspec(toks, k, wires)
+            if k != len(toks) or len(lhs) != len(rhs):
+                raise Unsupported(f"malformed process assignment {line!r}")
+            body.append(("assign", lhs, rhs))
+            i += 1
+        elif line.startswith("switch "):
+            sig, _k = _sigspec(_tokens(line[len("switch "):]), 0, wires)
+            i += 1
+            cases = []
+            while lines[i].startswith("case"):
+                pats = [p.strip() for p in lines[i][len("case"):].split(",") if p.strip()]
+                pats = [p.split("'")[1] for p in pats]
+                if any(len(p) != len(sig) for p in pats):
+                    raise Unsupported(f"case pattern width differs from the switch value in {lines[i]!r}")
+                sub, i = _parse_proc_body(lines, i + 1, wires)
+                cases.append((pats, sub))
+            if lines[i] != "end":
+                raise Unsupported(f"unexpected {lines[i]!r} in a switch")
+            i += 1
+            body.append(("switch", sig, cases))
+        else:
+            raise Unsupported(f"RTLIL process line {line!r}")
+    raise Unsupported("unterminated process")
+
+
 def parse_rtlil(text):
     mods, cur, cell = {}, None, None
     pending = []
+    proc, depth = None, 0
     for raw in text.splitlines():
         line = raw.strip()
         if not line or line.startswith("attribute") or line.startswith("#"):
+            continue
+        if proc is not None:                     # inside `process ... end`: collect, parse at the module end
+            if line.startswith("switch "):
+                depth += 1
+            if line == "end":
+                if depth == 0:
+                    cur.procs.append(proc)
+                    proc = None
+                    continue
+                depth -= 1
+            proc[1].append(line)
+            continue
+        if line.startswith("process "):
+            proc, depth = [line.split()[1], []], 0
             continue
         if line.startswith("module "):
             cur = RModule(line.split()[1])
@@ -213,6 +285,11 @@ def parse_rtlil(text):
                     lhs, i = _sigspec(ta, 0, cur.wires)
                     rhs, i = _sigspec(ta, i, cur.wires)
                     cur.connects.append((lhs, rhs))
+                procs = []
+                for name, lines in cur.procs:
+                    body, k = _parse_proc_body(lines + ["end"], 0, cur.wires)
+                    procs.append((name, body))
+                cur.procs = procs
                 cur = None
             continue
         if line.startswith("wire "):
@@ -307,6 +384,19 @@ class RtlilEval:
                 raise Unsupported("connect width mismatch")
             for l, r in zip(lhs, rhs):
                 self.raw.append((self.key(path, l), ("bit", path, r)))
+        for name, body in m.procs:
+            lhs = []
+
+            def collect(b):
+                for st in b:
+                    if st[0] == "assign":
+                        lhs.extend(x for x in st[1] if x[0] == "w")
+                    else:
+                        for _p, sub in st[2]:
+                            collect(sub)
+            collect(body)
+            for b in dict.fromkeys(lhs):
+                self.raw.append((self.key(path, b), ("proc", path, name, body, b)))
         for typ, name, params, conns in m.cells:
             if typ in self.mods:
                 sub = self.mods[typ]
@@ -366,6 +456,17 @@ class RtlilEval:
             v = self.bit(d[1], d[2], memo) if self.bit(d[1], d[3], memo) else self.ext.get(key, 0)
         elif d[0] == "ff":
             v = (self.state[d[1]] >> d[2]) & 1
+        elif d[0] == "proc":
+            _p, path, name, body, b = d
+            pk = ("proc", path, name)
+            if pk not in memo:
+                memo[pk] = None            # a process reading its own output would loop
+                env = {}
+                self._run(path, body, env, memo)
+                memo[pk] = env
+            if memo[pk] is None or b not in memo[pk]:
+                raise Unsupported(f"process {name} does not assign {b} on this path")
+            v = memo[pk][b]
         else:
             _o, typ, p, conns, k = d
             a = lambda port: self.bit(p, conns[port][k], memo)
@@ -383,6 +484,25 @@ class RtlilEval:
                 v = a("\\B") if self.bit(p, conns["\\S"][0], memo) else a("\\A")
         memo[key] = v
         return v
+
+    def _run(self, path, body, env, memo):
+        for st in body:
+            if st[0] == "assign":
+                vals = [self.bit(path, r, memo) for r in st[2]]
+                for l, v in zip(st[1], vals):
+                    env[l] = v
+            else:
+                val = [self.bit(path, x, memo) for x in st[1]]
+                for pats, sub in st[2]:
+                    if not pats or any(all(ch == "-" or int(ch) == val[len(p) - 1 - j] for j, ch in enumerate(p)) for p in pats):
+                        self._run(path, sub, env, memo)
+                        break
+
+    def get_state(self):
+        return tuple(sorted(self.state.items()))
+
+    def set_state(self, st):
+        self.state = dict(st)
 
     def top_value(self, wire, memo=None):
         memo = {} if memo is None else memo
